@@ -3,7 +3,9 @@ package c06
 // System under test for C06: the real local.NewHashingKeyLocationMap over
 // the real record arrays, driven through
 //   - a harness BlockReferenceResolver (absolute block ids, oldest-first
-//     release, one epoch and one hash seed per block, like volatileBlockList),
+//     release, one epoch and one hash seed per block, like volatileBlockList)
+//     or, in the units of reallist_test.go, the real volatile / persistent
+//     block list,
 //   - a byte-slice blockdevice.BlockDevice for the persistent record array,
 //     which can be told to fail one chosen ReadAt/WriteAt call,
 //   - a pass-through LocationRecordArray decorator that observes slot
@@ -504,10 +506,15 @@ type config struct {
 	hashInit    uint64
 	getAttempts uint32
 	putAttempts int
+	list        string // description of the real block list, "" = harness resolver
 }
 
 func (c config) String() string {
-	return fmt.Sprintf("%s size=%d hashInit=%#x get=%d put=%d", c.backend, c.size, c.hashInit, c.getAttempts, c.putAttempts)
+	s := fmt.Sprintf("%s size=%d hashInit=%#x get=%d put=%d", c.backend, c.size, c.hashInit, c.getAttempts, c.putAttempts)
+	if c.list != "" {
+		s += " [" + c.list + "]"
+	}
+	return s
 }
 
 type opRec struct {
@@ -578,6 +585,7 @@ type harness struct {
 	keys   []local.Key
 	keyIdx map[local.Key]int
 	blocks *blockWindow
+	real   *realList // non-nil: the index resolves through a real block list (reallist_test.go)
 	dev    *memDevice
 	probe  *probe
 	klm    local.KeyLocationMap
@@ -602,15 +610,25 @@ type harness struct {
 	hist []opRec
 }
 
-func newArray(cfg config, blocks *blockWindow, dev *memDevice) local.LocationRecordArray {
+func newArray(cfg config, resolver local.BlockReferenceResolver, dev *memDevice) local.LocationRecordArray {
 	if cfg.backend == "blockdev" {
-		return local.NewBlockDeviceBackedLocationRecordArray(dev, blocks)
+		return local.NewBlockDeviceBackedLocationRecordArray(dev, resolver)
 	}
-	return local.NewInMemoryLocationRecordArray(cfg.size, blocks)
+	return local.NewInMemoryLocationRecordArray(cfg.size, resolver)
 }
 
 func newHarness(f fataler, cfg config, keys []local.Key, initialSeeds []uint64, storageType string) *harness {
-	h := &harness{f: f, cfg: cfg, keys: keys, keyIdx: map[local.Key]int{}}
+	return newHarnessOver(f, cfg, keys, initialSeeds, storageType, nil)
+}
+
+// newHarnessOver: with real == nil the record array resolves block references
+// through the harness blockWindow; otherwise through the REAL block list
+// real.list, which then holds len(initialSeeds) blocks already. In that case
+// blockWindow is nothing but the harness' own count of released and live
+// blocks (its seeds are never used) and release/alloc forward to
+// PopFront/PushBack of the real list.
+func newHarnessOver(f fataler, cfg config, keys []local.Key, initialSeeds []uint64, storageType string, real *realList) *harness {
+	h := &harness{f: f, cfg: cfg, keys: keys, keyIdx: map[local.Key]int{}, real: real}
 	for i, k := range keys {
 		h.keyIdx[k] = i
 	}
@@ -618,7 +636,11 @@ func newHarness(f fataler, cfg config, keys []local.Key, initialSeeds []uint64, 
 	if cfg.backend == "blockdev" {
 		h.dev = &memDevice{data: make([]byte, cfg.size*local.BlockDeviceBackedLocationRecordSize)}
 	}
-	h.probe = &probe{inner: newArray(cfg, h.blocks, h.dev), size: cfg.size, written: make([]bool, cfg.size), dev: h.dev}
+	var resolver local.BlockReferenceResolver = h.blocks
+	if real != nil {
+		resolver = real.list
+	}
+	h.probe = &probe{inner: newArray(cfg, resolver, h.dev), size: cfg.size, written: make([]bool, cfg.size), dev: h.dev}
 	h.klm = local.NewHashingKeyLocationMap(h.probe, cfg.size, cfg.hashInit, cfg.getAttempts, cfg.putAttempts, storageType)
 	h.mr = readerFor(storageType)
 	h.mr.last = h.mr.read() // an earlier, failed case may have left it stale
@@ -1058,6 +1080,9 @@ func (h *harness) release() {
 	before := h.cur
 	gone := h.blocks.released
 	h.blocks.release()
+	if h.real != nil {
+		h.real.popFront()
+	}
 	after := h.nxt
 	h.observe(after)
 	removed := false
@@ -1087,6 +1112,9 @@ func (h *harness) alloc(seed uint64) {
 	h.st.allocs++
 	before := h.cur
 	h.blocks.alloc(seed)
+	if h.real != nil {
+		h.real.pushBack(h)
+	}
 	after := h.nxt
 	h.observe(after)
 	for kx := range h.keys {
